@@ -147,11 +147,24 @@ func (w *worker) upEngine(release bool) *nbhttp.Engine {
 var curUpgrader *websocket.Upgrader
 var curUpgraded *websocket.Conn
 
+var upgradeCount int
+
 func (w *worker) upgradeServe(rw http.ResponseWriter, req *http.Request) {
 	if curUpgrader == nil {
 		return
 	}
-	c, err := curUpgrader.Upgrade(rw, req, nil)
+	// every third upgrade answers with response headers of its own, one of them long enough for
+	// the handshake buffer to grow (and, with an allocator that moves on growth, to move) while a
+	// header value is being copied
+	var hdr http.Header
+	upgradeCount++
+	if upgradeCount%3 == 0 {
+		hdr = http.Header{}
+		hdr.Set("X-Session-Ticket", strings.Repeat("t", []int{100, 900, 1000, 2000, 5000}[upgradeCount/3%5]))
+		hdr.Set("X-After", "value-after-the-long-one")
+		w.r.Count("upgrades_with_long_response_headers", 1)
+	}
+	c, err := curUpgrader.Upgrade(rw, req, hdr)
 	if err == nil {
 		curUpgraded = c
 	}
